@@ -49,11 +49,13 @@ class Sc8(Hist):
         t = {mk: tok for _, tok, mk in self.tokens[s]}
         sh, tooltok = planted_token(self.rng)
         self.tool_tokens.append(tooltok)
+        # prose in front of the credentials is multi-byte in half of the turns (byte offsets and character offsets then differ)
+        mb = self.vrng.choice(["", "", "これは日本語の文章です。鍵を使ってください： ", "Пожалуйста, используйте этот ключ доступа — ", "🙂🙂🙂 clé d'accès ↦ "])
         return [
-            {"type": "user", "text": "%s user turn %d: use key %s please" % (c, self.turn, t["user"])},
-            {"type": "thinking", "text": "%s thinking: the secret is %s" % (c, t["thinking"])},
-            {"type": "assistant", "text": "%s assistant: exported TOKEN=%s" % (c, t["assistant"])},
-            {"type": "plan", "text": "%s plan: rotate %s later" % (c, t["plan"])},
+            {"type": "user", "text": "%s user turn %d: %suse key %s please" % (c, self.turn, mb, t["user"])},
+            {"type": "thinking", "text": "%s thinking: %sthe secret is %s" % (c, mb, t["thinking"])},
+            {"type": "assistant", "text": "%s assistant: %sexported TOKEN=%s" % (c, mb, t["assistant"])},
+            {"type": "plan", "text": "%s plan: %srotate %s later" % (c, mb, t["plan"])},
             {"type": "tool_use", "name": "Edit", "input": {"file_path": "x", "note": tooltok}},
         ]
 
@@ -186,11 +188,17 @@ def run_case(case):
                 others = [x for x in sc.files if x != sc.log[-1][1]] or sc.files
                 sc.do_edit(author=who, f=rng.choice(others))
                 f_first = sc.log[-2][1]
-                sc.g("add", "--", f_first); sc.g("commit", "-q", "-m", "only one file")
-                if rng.random() < 0.5 and sc.profile.get("amend_human_edit", True):
-                    sc.do_edit(author="human", kinds=["ins"])
-                sc.g("add", "-A"); sc.g("commit", "-q", "--amend", "-m", "amended with the rest")
-                sc.ops.append("amend:leftover")
+                sc.g("add", "--", f_first)
+                pc = sc.g("commit", "-q", "-m", "only one file")
+                if pc.rc != 0:
+                    # nothing was staged (the session's edits cancelled out): amending would rewrite an unrelated earlier commit with
+                    # an agent's delete-only work, which is finding D12's shape; plain commit instead
+                    sc.commit_all("rest")
+                else:
+                    if rng.random() < 0.5 and sc.profile.get("amend_human_edit", True):
+                        sc.do_edit(author="human", kinds=["ins"])
+                    sc.g("add", "-A"); sc.g("commit", "-q", "--amend", "-m", "amended with the rest")
+                    sc.ops.append("amend:leftover")
             elif op == "reset":
                 sc.commit_all("to-undo")
                 sc.op_reset(mode=rng.choice(["--soft", "--mixed"]))
